@@ -17,6 +17,9 @@ pub struct SpecPub<B: Fld> {
     pub spec: Arc<AirSpec>,
     /// asserted values, one vector per assertion of the spec
     pub values: Vec<Vec<B>>,
+    /// further public-input elements appended to the element encoding (the AIR does not interpret them; they are
+    /// part of the statement the coin is seeded with)
+    pub extra: Vec<B>,
 }
 
 impl<B: Fld> ToElements<B> for SpecPub<B> {
@@ -26,6 +29,7 @@ impl<B: Fld> ToElements<B> for SpecPub<B> {
             v.push(B::mk(vals.len() as u128));
             v.extend(vals.iter().cloned());
         }
+        v.extend(self.extra.iter().cloned());
         v
     }
 }
